@@ -341,6 +341,7 @@ def run(ctx, rep):
         _panics.run_c17(F, rep, ctx)
 
     borrow_discipline(F, rep)
+    recursion_is_bounded(F, rep)
 
 
 INTERPRETER_CELLS = (
@@ -381,3 +382,83 @@ def borrow_discipline(F, rep):
             rep.ob("C17.borrow", "no conflicting borrow of %s while a guard is alive (%d guards, %d functions that may borrow it mutably)" % (what, st["guards_born"], st["mutators"]),
                    "ok", "", None, key="C17.borrow|%s|summary" % what)
     rep.floor("C17.borrow guards tracked in crate bytecode", total, 80)
+
+
+def recursion_is_bounded(F, rep, rule="C17.depth"):
+    """A call in the interpreted program is a recursive call in the interpreter (Function::run -> the jump-request machinery -> Function::run): the
+    native stack grows with the program's call depth.  "Stack exhaustion" is one of the failures the language defines, so it has to arrive as a
+    run-time error with a trace - which needs a bound that is checked *before* the native stack runs out: a comparison of the call depth
+    (frames of the call stack, a counter) with a limit inside the recursive cycle whose failing edge returns an Err, or a stack that is grown on
+    demand (stacker).  With neither, a recursion a few dozen calls deep (debug build, default 4 MB thread) kills the process with SIGABRT."""
+    import re
+    fns = {f.path: f for f in F.crates["bytecode"].fns}
+    g0 = F.call_graph()
+    run = "bytecode::function::Function::run"
+    if run not in fns:
+        raise AnchorMissing(run)
+
+    def succ(v):
+        out = set()
+        for w in g0.get(v, ()):
+            for x in (w, getattr(F.fn(w), "path", None)):
+                if x in fns:
+                    out.add(x)
+        f = fns.get(v)
+        if f is not None:
+            for g in F.closures_of(f):
+                out.add(g.path)
+        return out
+    # the functions on a cycle through Function::run
+    fwd, todo = {run}, [run]
+    while todo:
+        v = todo.pop()
+        for w in succ(v):
+            if w not in fwd:
+                fwd.add(w)
+                todo.append(w)
+    cyc = {v for v in fwd if run in succ(v) or v == run}
+    changed = True
+    while changed:
+        changed = False
+        for v in fwd:
+            if v not in cyc and succ(v) & cyc:
+                # v reaches the cycle; it is on it only if run reaches v (true: v in fwd) and v reaches run
+                cyc.add(v)
+                changed = True
+    recursive = any(run in succ(v) for v in fwd)
+    if not recursive:
+        # the cycle closes through the callback Function::run is handed (`jump_callback: impl Fn(&JumpRequest)`): a closure somewhere in the crate
+        # that reaches Function::run again, and a call of a Fn parameter inside Function::run
+        calls_param = any(re.search(r"ops::function::Fn(Mut|Once)?::call", c.callee() or "") for c in fns[run].calls())
+
+        def reach(s0):
+            seen, td = {s0}, [s0]
+            while td:
+                v = td.pop()
+                for w in succ(v):
+                    if w not in seen:
+                        seen.add(w)
+                        td.append(w)
+            return seen
+        back = [v for v, f_ in fns.items() if f_.kind == "Closure" and run in reach(v)]
+        if calls_param and back:
+            recursive = True
+            cyc |= set(back) | {run}
+            for v in back:
+                cyc |= {w for w in reach(v) if run in reach(w)}
+    guards = []
+    for v in sorted(cyc):
+        f = fns[v]
+        for c in f.calls():
+            cal = mir.strip_generics(c.callee() or "")
+            if re.search(r"stacker::|Ctx::frames_count$|Stack::size$|Stack::len$|Stack::depth$", cal) and c.dst:
+                der = f.derived([c.dst["l"]])
+                for bi, si, dst, rv, s_ in f.assigns():
+                    if "bin" in rv and rv["bin"] in ("Gt", "Ge", "Lt", "Le") and (op_local(rv["l"]) in der or op_local(rv["r"]) in der):
+                        guards.append((v, c))
+            if "stacker::" in cal:
+                guards.append((v, c))
+    rep.ob(rule, "the interpreter's recursion (one native frame chain per MScript call) is bounded by a checked call depth or a stack grown on demand",
+           "ok" if (guards or not recursive) else "violated",
+           "" if (guards or not recursive) else ("Function::run is on a call-graph cycle of %d functions and nothing on it compares the call depth with a limit: deep recursion ends in a "
+                                                 "native stack overflow (abort, no MScript error, no trace)" % len(cyc)), fns[run].span, fn=run, key=rule + "|interpreter-recursion")
